@@ -21,6 +21,7 @@ LXNstar == <<"X", "N", "-", "-", "*">>      \* the ACE prefix capitalised (RFC 5
 LXNa == <<"X", "N", "-", "-", "a">>
 LabelSeq == <<La, Lb, Lab, Lstar, Lastar, Lstara, Lastarb, L2star, Lxna, Lxnstar, Lempty, LA, LXNstar, LXNa>>
 MCLabels14 == {LabelSeq[i] : i \in 1..14}
+MCLabels12 == {LabelSeq[i] : i \in 1..12}      \* the alphabet of the property's quantifier + "A"
 MCLabels8 == {La, Lb, Lstar, Lastar, L2star, Lxna, Lempty, LA}
 MCLabels6 == {La, Lstar, Lstara, Lxna, Lempty, LA}
 MCLabels5 == {La, Lstar, Lastar, Lxna, Lempty}
@@ -83,15 +84,16 @@ OnlyAceCase == {"ACECASE"}                  \*  so MATCHER stays drift-free afte
 
 EmitPairs ==
     (st # <<>> /\ NameHash(st) % ShardK = ShardS) =>
-        LET cls == [h \in Hosts |-> DnsClass(st, h)]
-            must == {h \in Hosts : cls[h] = "must"}
-            eith == {h \in Hosts : cls[h] = "either"} IN
+        LET rcl == [h \in Hosts |-> DnsRejectClause(st, h)]          \* evaluated once per host
+            must == {h \in Hosts : DnsMustAccept(st, h)}
+            eith == {h \in Hosts : h \notin must /\ rcl[h] = "none"}
+            macc == {h \in Hosts : DnsnameMatch(st, h) = "T"} IN
         PrintT(<<"HM", ToJson([dn |-> NameStr(st),
                                must |-> {NameStr(h) : h \in must},
                                either |-> {NameStr(h) : h \in eith},
-                               macc |-> {NameStr(h) : h \in {g \in Hosts : DnsnameMatch(st, g) = "T"}},
-                               ace |-> {NameStr(h) : h \in {g \in Hosts : DnsMustReject(st, g) /\ AceCase(st, g)}},
-                               rc |-> {DnsRejectClause(st, h) : h \in Hosts},
+                               macc |-> {NameStr(h) : h \in macc},
+                               ace |-> {NameStr(h) : h \in {g \in Hosts : AceCase(st, g) /\ rcl[g] # "none" /\ g \notin must}},
+                               rc |-> {rcl[h] : h \in Hosts},
                                nhosts |-> Cardinality(Hosts)])>>)
 
 EIdx(e) == CHOOSE i \in 1..Len(MCEntrySeq) : MCEntrySeq[i] = e
